@@ -32,7 +32,7 @@ FUNCTIONS = [
 ]
 BOUNDS = {
     "quick": dict(loop_iterations="<=4 (symbolic cap 1..4, symbolic minimum 0..3)", criteria="1..3 with symbolic values and tolerances, any/all", ins_store="3 samples (2 live + 1 discarded ... 1 live + 2 discarded)"),
-    "thorough": dict(loop_iterations="<=5", criteria="1..3 with symbolic values and tolerances, any/all", ins_store="4 samples"),
+    "thorough": dict(loop_iterations="<=6", criteria="1..3 with symbolic values and tolerances, any/all", ins_store="4 samples"),
 }
 SCOPE = "Condition values, tolerances, caps are symbolic; the loop bodies are stubs that only advance the iteration and set the next symbolic value."
 ASSUMPTIONS = [
@@ -348,7 +348,7 @@ def units(tier):
     from harness import c01_liveset as c01
     us = []
     q = tier == "quick"
-    d = 4 if q else 5
+    d = 4 if q else 6
     lin = dict()
     us.append(Unit(f"standard_loop[depth={d}]", make_standard_loop(d), MODS, lin, expect_cover=["end"], mutants=["cap"], twin_runs=40, witness_every=5, nproc=1))
     for ncrit in (1, 2, 3):
